@@ -252,8 +252,13 @@ def run(ctx):
     # time-based obligations are re-executed once in isolation (no sibling processes) before they are reported
     timing = [c for c in cands if c[1].startswith(("C04.L5", "C04.L1.hang", "C04.L6"))]
     confirmed = set()
-    if timing:
-        redo = [by_id[sid] for sid in sorted({c[0] for c in timing})]
+    # up to three isolated re-executions: a defect that needs a coin flip of the scheduler (e.g. a select with two ready cases)
+    # reproduces in one of them with high probability; a stall of the machine during the first run does not
+    for attempt in range(3):
+        todo = sorted({c[0] for c in timing if (c[0], c[1]) not in confirmed})
+        if not todo:
+            break
+        redo = [by_id[sid] for sid in todo]
         raws2, crashed2 = xc.run_scenarios(ctx, drv, redo, nproc=1, per_timeout=90, flag="-histories")
         cs2 = {c["id"]: (c["panic"] or "exit %s" % c["rc"]) for c in crashed2}
         ab2 = {}
@@ -261,7 +266,7 @@ def run(ctx):
             ab2.update(project(rp, cs2))
         if ab2:
             order2 = sorted(ab2)
-            cur2 = ctx.path("abs2.ndjson")
+            cur2 = ctx.path("abs2-%d.ndjson" % attempt)
             idx2 = []
             with open(cur2, "w") as fh:
                 for sid in order2:
